@@ -21,6 +21,8 @@ import WR.C09.LemmasBII
 import WR.C09.LemmasCompose
 import WR.C09.LemmasFlex
 import WR.C09.LemmasTable
+import WR.C09.LemmasFinal
+import WR.C09.LemmasWeaken
 namespace WR.Props.C09
 open WR.C09
 
@@ -219,13 +221,59 @@ theorem table_fixup_wrapper (box : Box) (children : List Box) (ht : isTable box.
     ∃ r, tbc tbcFuel box children = .ok r ∧ TbTableShape box r :=
   tbc_shape_table box children ht
 
+/-- `table_fixup_wf`: on every raw tree the table pass succeeds and establishes, at every box outside
+    running subtrees (children and column groups), the table-model clauses of `WF`: every non-running table
+    inside a wrapper that holds captions and exactly that table; row groups only in tables, rows only in row
+    groups, cells only in rows, columns only in column groups, column groups only in a table's ColumnGroups;
+    table ⊃ row groups ⊃ rows ⊃ cells; anonymous boxes supplied for the missing levels; the weakened grid
+    clause; columns empty; only raw box types; no line box -/
+theorem table_fixup_wf (b : Box) (h : allW pt_rawOK b = true) (hb : isBlockLevel b.ty = true) :
+    ∃ r, anonTable b = .ok r ∧ allW postTable r = true ∧
+      (isTable b.ty = false ∨ b.a.running = true → r.ty = b.ty ∧ r.a.running = b.a.running) ∧
+      (isTable b.ty = true → b.a.running = false → (r.ty = .block ∨ r.ty = .inlineBlock)) :=
+  anonTable_postTable_blockRoot b h hb
+
+example : allW pt_rawOK pt_demo = true := by decide
+
+/-- the flex and grid passes keep all of that and establish the flex/grid clause -/
+theorem flexGrid_keeps_table_model (t : Box) (h : allW postTable t = true) :
+    allW postGrid (gridBoxes (flexBoxes t)) = true ∧
+    (gridBoxes (flexBoxes t)).ty = t.ty ∧ (gridBoxes (flexBoxes t)).a = t.a :=
+  flexGrid_postGrid t h
+
+/-- InlineInBlock and BlockInInline keep the table-model and flex/grid clauses and establish the
+    block-container and inline clauses: every clause of `WF` except the strong grid clause -/
+theorem inlinePasses_wf (g : Box) (h : allW postGrid g = true) (hroot : isBlockLevel g.ty = true) :
+    ∃ i o, inlineInBlock g = .ok i ∧ blockInInline i = .ok o ∧ o.ty = g.ty ∧ o.a = g.a ∧
+      allW nodeOKw o = true :=
+  inlinePasses_wfw_blockLevel g h hroot
+
+/-! ## 5. The composition -/
+
 /-
-  NOT PROVED (full statement of the design's `table_fixup_wf`): for every raw tree `b`,
-  `anonTable b = .ok r → allN (fun ty a kids => kids.all (childAllowed ty a) && tableKidsOK ty a kids cols) r`
-  together with the shapes `preFG` / `preIIB` that sections 2 and 3 assume, and hence the composition
-  `createAnonymous_wf : RawOK b → ∃ r, createAnonymousBox b = .ok r ∧ WF r` (false as stated anyway because
-  of KF09-1 and KF09-2).  Missing: the induction below the row/column groups of `TbTableShape` and the
-  global induction over `anonTable`.  These clauses are judged on the implementation's output only.
+  FULL STATEMENT (the design's `createAnonymous_wf`, false for the code):
+    theorem createAnonymous_wf (b : Box) (h : allW rawOK' b = true) (root hypotheses) :
+        ∃ r, createAnonymousBox b = .ok r ∧ WF r
+  where rawOK' is `pt_rawOK` without the conjunct "no inline box is running" and `WF r` is
+  `wfRoot r = true` with the full grid clause.  It is false twice: `grid_disjoint_witness` (KF09-1) and
+  `running_inline_split` (KF09-2).  What holds, for every raw tree without running inline boxes:
 -/
+
+/-- CreateAnonymousBox succeeds (no panic in any pass, all loops end within their fuel) on every raw tree
+    (`pt_rawOK` everywhere: the shape elementToBox produces — evaluated by the harness on every real raw
+    tree —, cells span ≥ 1 column, no running inline box) with a non-running block-level root that is not an
+    inline table; the result has a block-level non-table root and satisfies every clause of `WF` at every box
+    outside running subtrees, the grid clause in the weakened form `gridOKw`
+    (`wfw` = `wf` with `gridOK` replaced by `gridOKw`). -/
+theorem createAnonymous_wf_partial (b : Box) (h : allW pt_rawOK b = true) (hb : isBlockLevel b.ty = true)
+    (hi : b.ty ≠ .inlineTable) (hr : b.a.running = false) :
+    ∃ r, createAnonymousBox b = .ok r ∧ wfw r = true ∧ isBlockLevel r.ty = true ∧ isTable r.ty = false :=
+  createAnonymous_wfw b h hb hi hr
+
+/-- the weakened spec really is weaker: whatever satisfies `WF` below the root satisfies `wfw` -/
+theorem wfw_is_weaker (b : Box) (h : wf b = true) : wfw b = true := wfw_of_wf b h
+
+example : allW pt_rawOK pt_demo = true ∧ isBlockLevel pt_demo.ty = true ∧ pt_demo.ty ≠ .inlineTable ∧
+    pt_demo.a.running = false := by decide
 
 end WR.Props.C09
